@@ -164,12 +164,17 @@ class DefRuntime:
         cls = self.classes[ph["k"]]
         d = ph["d"]
         try:
-            fn = getattr(cls, ph["name"])
-            if d["d"] == "require":
-                new = ic.require(self.cond(d["c"], "pre"))(fn)
+            raw = inspect.getattr_static(cls, ph["name"])
+            deco = ic.require(self.cond(d["c"], "pre")) if d["d"] == "require" else ic.ensure(self.cond(d["c"], "post"))
+            if isinstance(raw, property):
+                # K.name = property(icontract.require(...)(K.name.fget), ...)
+                setattr(cls, ph["name"], property(deco(raw.fget), raw.fset, raw.fdel))
+            elif isinstance(raw, staticmethod):
+                setattr(cls, ph["name"], staticmethod(deco(raw.__func__)))
+            elif isinstance(raw, classmethod):
+                setattr(cls, ph["name"], classmethod(deco(raw.__func__)))
             else:
-                new = ic.ensure(self.cond(d["c"], "post"))(fn)
-            setattr(cls, ph["name"], new)
+                setattr(cls, ph["name"], deco(getattr(cls, ph["name"])))
             return "ok"
         except (AssertionError, TypeError, ValueError) as exc:
             return type(exc).__name__
